@@ -227,8 +227,11 @@ Definition lme_personalize (with_slope : bool) (p : lme_params) (obs : hist) : r
   else
     let o := remove_nans obs in
     let r := residuals p o in
-    if with_slope then blup2 (design p (map fst o)) r (cov_inv p)
-    else rmap (fun b => (b, 0)) (intercept_re r (m11 (cov_inv p))).
+    match o with
+    | [] => Err Empty      (* statsmodels' add_constant raises ValueError on an empty array *)
+    | _ => if with_slope then blup2 (design p (map fst o)) r (cov_inv p)
+           else rmap (fun b => (b, 0)) (intercept_re r (m11 (cov_inv p)))
+    end.
 
 (** [compute_individual_trajectory]: [X @ (fe_params + re_params)] at one age *)
 Definition lme_at (p : lme_params) (re : Q * Q) (t : Q) : Q :=
